@@ -247,6 +247,7 @@ fn replay(run: &mut Run, ctx: &serde_json::Value, property: &str) {
     let shared = Shared { seen: Mutex::new(HashSet::new()) };
     let mut t = Tally::default();
     let prelude: Vec<Op> = ctx.get("prelude").and_then(|v| serde_json::from_value(v.clone()).ok()).unwrap_or_default();
+    vdb::fixture::set_config_variant(ctx.get("config").and_then(|v| v.as_u64()).unwrap_or(0) as u8);
     if let Some(cut) = ctx.get("cut") {
         let op = cut["op"].as_u64().unwrap() as usize;
         let lens: Vec<usize> = serde_json::from_value(cut["written"].clone()).expect("written");
@@ -583,12 +584,62 @@ fn main() {
             vcore::report::machinery("cut pass enumerated no state: the index-write regions were not recognised");
         }
     }
+    // ---- storage configuration variants: compression on, cache disabled / tiny byte-bounded cache
+    if !c04 && run.violation_count() == 0 && Instant::now() < deadline {
+        let f2: Vec<Op> = vec![Op::Add(0), Op::Add(1), Op::Flush];
+        let mut items: Vec<(u8, Vec<Op>, Vec<Op>)> = Vec::new();
+        for variant in [1u8, 2] {
+            for op in &ops {
+                items.push((variant, vec![], vec![op.clone()]));
+            }
+            for op in [Op::Remove(1), Op::Add(2), Op::Update(1, 0), Op::Update(2, 8), Op::Flush, Op::Remove(2), Op::Add(3), Op::Update(1, 5), Op::SaveExt(1), Op::CompactBtree, Op::CompactBm25, Op::Reopen] {
+                items.push((variant, f2.clone(), vec![op.clone()]));
+                if run_thorough {
+                    items.push((variant, f2.clone(), vec![op, Op::Flush]));
+                }
+            }
+        }
+        let total = items.len();
+        // crash states are deduplicated by store content: compressed objects differ from the
+        // uncompressed ones, so these are new states, but keep the variants apart from the main set
+        let vshared = Shared { seen: Mutex::new(HashSet::new()) };
+        let tallies = util::par_map(items, threads, |(variant, prelude, w)| {
+            if Instant::now() > deadline {
+                return None;
+            }
+            NESTED.with(|n| n.set(true));
+            vdb::fixture::set_config_variant(variant);
+            let t = run_workload(&prelude, &w, starts[0], Backend::Mem, true, false, &vshared);
+            vdb::fixture::set_config_variant(0);
+            Some((variant, t))
+        });
+        let mut finished = 0usize;
+        for (variant, t) in tallies.into_iter().flatten() {
+            finished += 1;
+            run.add("config_variant_workloads", 1);
+            run.add("crash_states", t.crash_states);
+            run.add("evaluations", t.recoveries);
+            run.add("nontrivial_states", t.nontrivial);
+            run.add("nested_crash_states", t.nested);
+            run.add("in_flight_crash_states", t.in_flight_states);
+            run.add("ambiguous_failure_runs", t.fault_runs);
+            for (sig, msg, mut ctx) in t.problems {
+                ctx["config"] = json!(variant);
+                run.violation(Violation { signature: format!("{property}|crash|config{variant}|{sig}"), summary: format!("storage configuration variant {variant}: {msg} [{}]", ctx), replay: ctx });
+            }
+        }
+        if finished < total {
+            run.cap_hit(&format!("time budget inside the configuration-variant pass: {finished}/{total} workloads"));
+        } else {
+            completed.push(format!("storage configuration variants 1 and 2: {total} workloads"));
+        }
+    }
     let distinct = shared.seen.lock().len() as u64;
     run.set("distinct_crash_states_recovered", json!(distinct));
     let nt = run.get("nontrivial_states");
     run.set("distinct_nontrivial", json!(nt));
     run.set("completed", json!(completed));
     run.rule("workloads = every op sequence to the depth bound over the alphabet {add, rejected add, update, remove, flush, save_extension, compact, clean reopen, index create/remove via reopen}; for each: every journal prefix k (crash after the k-th backend mutation) -> recover -> acknowledgement model + full index comparison + continuation (add, flush, clean reopen) -> every strict prefix of the recovery's own mutations -> recover again; plus one failed backend mutation - both answers: the write landed but an error was returned, and nothing landed and an error was returned - at every mutation of every workload up to the stated depth, with the workload continuing on the same handle; recoveries are deduplicated by (store content, expectation, backend), so every evaluation is a distinct crash state; non-trivial = the acknowledgement model holds at least one document (i.e. not a crash inside collection creation); cut pass: for the flush-bearing operations of a fixed list of workloads, every vector of per-index-chain write-prefix lengths that is not itself a journal prefix (full product for index sets of <= 4 chains; for the full 8-chain fixture at most 2 (thorough: 3) chains strictly partial, the others untouched or complete)");
-    run.assume("crash model: each backend mutation is atomic, a sequence stops anywhere (the repo's own FaultStore model); the index flushes joined inside one collection flush write only below their own directories and are mutually independent, so a crash state of that phase is any combination of per-index prefixes of the journalled per-index write order (cut pass); the order of writes INSIDE one index flush is the one the deterministic executor produces (bucket-put subsets inside one index flush are enumerated by C10/C11/C12 crash parts)");
+    run.assume("storage configuration: compression off and the default cache for the enumerated workloads; every depth-1 workload from the empty and from the flushed2 start state again with zstd level 3 + cache disabled and with zstd level 1 + a 300-byte cache; crash model: each backend mutation is atomic, a sequence stops anywhere (the repo's own FaultStore model); the index flushes joined inside one collection flush write only below their own directories and are mutually independent, so a crash state of that phase is any combination of per-index prefixes of the journalled per-index write order (cut pass); the order of writes INSIDE one index flush is the one the deterministic executor produces (bucket-put subsets inside one index flush are enumerated by C10/C11/C12 crash parts)");
     run.finish();
 }
